@@ -703,3 +703,86 @@ mod tests {
         Ok(())
     }
 }
+
+/// Verification hooks: wrappers exporting the private session functions and the frame codec.
+#[cfg(feature = "verif-hooks")]
+#[allow(missing_docs)]
+pub mod verif {
+    use super::*;
+    pub use super::BobState;
+
+    pub async fn run_alice<R: AsyncRead + Unpin, W: AsyncWrite + Unpin>(
+        writer: &mut W,
+        reader: &mut R,
+        handle: &SyncHandle,
+        namespace: NamespaceId,
+        peer: PublicKey,
+    ) -> Result<SyncOutcome, ConnectError> {
+        super::run_alice(writer, reader, handle, namespace, peer).await
+    }
+
+    /// Public mirror of the private wire message.
+    #[derive(Debug, Clone)]
+    pub enum WireMessage {
+        Init {
+            namespace: NamespaceId,
+            message: crate::sync::ProtocolMessage,
+        },
+        Sync(crate::sync::ProtocolMessage),
+        Abort {
+            reason: AbortReason,
+        },
+    }
+
+    impl From<WireMessage> for Message {
+        fn from(m: WireMessage) -> Message {
+            match m {
+                WireMessage::Init { namespace, message } => Message::Init { namespace, message },
+                WireMessage::Sync(m) => Message::Sync(m),
+                WireMessage::Abort { reason } => Message::Abort { reason },
+            }
+        }
+    }
+
+    impl From<Message> for WireMessage {
+        fn from(m: Message) -> WireMessage {
+            match m {
+                Message::Init { namespace, message } => WireMessage::Init { namespace, message },
+                Message::Sync(m) => WireMessage::Sync(m),
+                Message::Abort { reason } => WireMessage::Abort { reason },
+            }
+        }
+    }
+
+    /// Frame writer using the real codec, one flush per message as the sessions do.
+    #[derive(Debug)]
+    pub struct WireWriter<W>(FramedWrite<W, SyncCodec>);
+
+    impl<W: AsyncWrite + Unpin> WireWriter<W> {
+        pub fn new(writer: W) -> Self {
+            Self(FramedWrite::new(writer, SyncCodec))
+        }
+        pub async fn send(&mut self, message: WireMessage) -> anyhow::Result<()> {
+            self.0.send(Message::from(message)).await
+        }
+        pub fn into_inner(self) -> W {
+            self.0.into_inner()
+        }
+    }
+
+    /// Frame reader using the real codec.
+    #[derive(Debug)]
+    pub struct WireReader<R>(FramedRead<R, SyncCodec>);
+
+    impl<R: AsyncRead + Unpin> WireReader<R> {
+        pub fn new(reader: R) -> Self {
+            Self(FramedRead::new(reader, SyncCodec))
+        }
+        pub async fn next(&mut self) -> Option<anyhow::Result<WireMessage>> {
+            self.0.next().await.map(|r| r.map(WireMessage::from))
+        }
+    }
+
+    /// The frame length bound of the codec.
+    pub const MAX_MESSAGE_SIZE: usize = super::MAX_MESSAGE_SIZE;
+}
